@@ -36,7 +36,7 @@ pub fn gen_ell(rng: &mut Rng) -> Case {
     let pa = rng.f() * PI;
     let (mut lon, mut lat) = cone_center(rng);
     if rng.below(10) == 0 { let d = rng.below(30) as u8; let c = nested::get_or_create(d).center(rng.below(n_hash(d))); lon = c.0; lat = c.1; }
-    return Case::new("ell").u("depth", depth as u64).u("dd", dd as u64).f("lon", lon.rem_euclid(TWO_PI)).f("lat", lat).f("a", a).f("b", b).f("pa", pa).u("s", rng.next() >> 1);
+    return Case::new("ell").u("depth", depth as u64).u("dd", dd as u64).f("lon", any_turn(rng, lon)).f("lat", lat).f("a", a).f("b", b).f("pa", pa).u("s", rng.next() >> 1);
   }
 }
 
